@@ -1,16 +1,17 @@
 (* C08 — ACL decisions follow rule semantics and depend only on the token's own policies.
-   Theorems only; each closed by an application of a lemma of ACL/Proofs.v or ACL/Cache.v.
+   Theorems only; each closed by an application of a lemma of ACL/Proofs.v, ACL/Cache.v or
+   ACL/EndToEnd.v.
 
    Model: ACL/Model.v (MergePolicies, loadRules, getPolicy, the any/all/prefix walks, every
    Authorizer method, chained + static authorizers, ACLPolicies.Compile with its two caches).
    Reference: ACL/Spec.v (the documented rule over plain rule lists, no trees, no merge).
 
-   The full statements of C08_semantics and C08_order_independent are FALSE of the faithful model
-   for access strings that are not spelled in lowercase ("Deny", "WRITE"): the code validates and
-   loads them case-insensitively but compares them with == in takesPrecedenceOver and in the
-   intention defaulting (known finding, confirmed on the real code).  They are therefore stated as
-   _partial under [canonical] (every access string is one of the lowercase constants) together
-   with _refuted witnesses.  C08_pure holds outright. *)
+   All statements hold outright, for every spelling of the access strings ("deny", "Deny",
+   "WRITE"): since commit e3d2ecc takesPrecedenceOver and the intention defaulting of loadRules
+   lowercase before comparing, as AccessLevelFromString always did.  (Before that commit they were
+   false for non-lowercase spellings; the witnesses are kept below as examples that now agree with
+   the reference.)  The only hypothesis, [levelled], is what PolicyRules.Validate guarantees for
+   every policy that parses (C08_valid_is_levelled). *)
 From Verif Require Import Base.Prelude.
 From Verif Require Import ACL.Model.
 From Verif Require Import ACL.Spec.
@@ -22,34 +23,39 @@ From Coq Require Import Permutation.
 
 (* ------------------------------------------------------------------ semantics *)
 
-(* For every list of lowercase policies the authorizer exists, and for every method, name and
-   default policy its decision is the documented rule: exact match, else longest prefix; deny >
-   write > list > read across policies; the default policy otherwise. *)
-Theorem C08_semantics_partial : forall ps,
-  forallb canonical ps = true ->
+(* For every list of policies whose rules name a level the authorizer exists, and for every method,
+   name and default policy its decision is the documented rule: exact match, else longest prefix;
+   deny > write > list > read across policies; the default policy otherwise. *)
+Theorem C08_semantics : forall ps,
+  forallb levelled ps = true ->
   exists a, new_policy_authorizer ps = Some a
     /\ forall m, policy_decide a m = spec_decide ps m
     /\ forall s, chain_decide a s m = spec_chain ps s m.
 Proof. exact semantics. Qed.
 
-(* ... refuted without the hypothesis: deny spelled "Deny" is overridden by read. *)
+(* every policy that passes PolicyRules.Validate is covered *)
+Theorem C08_valid_is_levelled : forall p, validate p = true -> levelled p = true.
+Proof. exact validate_levelled. Qed.
+
 Definition p_key (name : string) (pol : pstr) : policy :=
   Policy PEmpty PEmpty PEmpty PEmpty PEmpty [Rule KKey false name pol PEmpty].
 
-Theorem C08_semantics_refuted : exists ps a m,
-  new_policy_authorizer ps = Some a /\ forallb validate ps = true
-  /\ policy_decide a m = Allow /\ spec_decide ps m = Deny.
+(* the inputs that refuted the statement before e3d2ecc: deny spelled "Deny" now overrides read
+   in either order, a scalar rule spelled "Write" is a rule, service "Write" defaults intentions
+   to read *)
+Example C08_mixed_case_example :
+  (forall ps, In ps [[p_key "a" (POdd LDeny); p_key "a" (PCanon LRead)]; [p_key "a" (PCanon LRead); p_key "a" (POdd LDeny)]] ->
+     forallb validate ps = true /\ forallb levelled ps = true
+     /\ option_map (fun a => policy_decide a (MKeyRead "a")) (new_policy_authorizer ps) = Some Deny
+     /\ spec_decide ps (MKeyRead "a") = Deny)
+  /\ (let p := Policy (POdd LWrite) PEmpty PEmpty PEmpty PEmpty [Rule KService false "s" (POdd LWrite) PEmpty] in
+      validate p = true
+      /\ option_map (fun a => (policy_decide a MACLWrite, policy_decide a (MIntentionRead "s"))) (new_policy_authorizer [p])
+         = Some (Allow, Allow)).
 Proof.
-  exists [p_key "a" (POdd LDeny); p_key "a" (PCanon LRead)]. eexists. exists (MKeyRead "a").
-  vm_compute. repeat split; reflexivity.
-Qed.
-
-(* a scalar rule spelled "Write" yields no rule at all *)
-Theorem C08_semantics_scalar_refuted : exists p a,
-  new_policy_authorizer [p] = Some a /\ validate p = true
-  /\ policy_decide a MACLWrite = Default /\ spec_decide [p] MACLWrite = Allow.
-Proof.
-  exists (Policy (POdd LWrite) PEmpty PEmpty PEmpty PEmpty []). eexists. vm_compute. repeat split; reflexivity.
+  split.
+  - intros ps [<-|[<-|[]]]; vm_compute; repeat split; reflexivity.
+  - vm_compute. split; reflexivity.
 Qed.
 
 (* the pieces of the reference, in words a reader can check *)
@@ -104,25 +110,24 @@ Proof. intros rs k. split; [apply covers_eff|apply covers_eff_int]. Qed.
 
 (* ------------------------------------------------------------------ order independence *)
 
-Theorem C08_order_independent_partial : forall ps ps' a a',
-  forallb canonical ps = true -> Permutation ps ps' ->
+Theorem C08_order_independent : forall ps ps' a a',
+  forallb levelled ps = true -> Permutation ps ps' ->
   new_policy_authorizer ps = Some a -> new_policy_authorizer ps' = Some a' ->
   forall m, policy_decide a m = policy_decide a' m /\ forall s, chain_decide a s m = chain_decide a' s m.
 Proof. exact order_independent. Qed.
 
-Theorem C08_order_independent_refuted : exists ps ps' a a' m,
-  Permutation ps ps' /\ forallb validate ps = true
-  /\ new_policy_authorizer ps = Some a /\ new_policy_authorizer ps' = Some a'
-  /\ policy_decide a m = Deny /\ policy_decide a' m = Allow.
-Proof.
-  exists [p_key "a" (POdd LDeny); p_key "a" (POdd LWrite)], [p_key "a" (POdd LWrite); p_key "a" (POdd LDeny)].
-  eexists. eexists. exists (MKeyWrite "a").
-  split; [apply perm_swap|]. vm_compute. repeat split; reflexivity.
-Qed.
+(* the pair that refuted it before e3d2ecc ("Deny" then "Write" vs "Write" then "Deny") *)
+Example C08_order_mixed_case_example :
+  let ps := [p_key "a" (POdd LDeny); p_key "a" (POdd LWrite)] in
+  let ps' := [p_key "a" (POdd LWrite); p_key "a" (POdd LDeny)] in
+  Permutation ps ps' /\ forallb levelled ps = true
+  /\ option_map (fun a => policy_decide a (MKeyWrite "a")) (new_policy_authorizer ps) = Some Deny
+  /\ option_map (fun a => policy_decide a (MKeyWrite "a")) (new_policy_authorizer ps') = Some Deny.
+Proof. split; [apply perm_swap|]. vm_compute. repeat split; reflexivity. Qed.
 
 (* Go hands the merged rules to loadRules in map-iteration order: any order gives the same decisions *)
 Theorem C08_map_order_independent : forall ps p' a a',
-  forallb canonical ps = true ->
+  forallb levelled ps = true ->
   p_acl p' = p_acl (merge_policies ps) -> p_keyring p' = p_keyring (merge_policies ps) ->
   p_operator p' = p_operator (merge_policies ps) -> p_mesh p' = p_mesh (merge_policies ps) ->
   p_peering p' = p_peering (merge_policies ps) ->
@@ -135,7 +140,7 @@ Proof. exact map_order_independent. Qed.
 
 (* Whatever tokens were resolved before (any policies of the versioned store W, any order), whatever
    was evicted or purged in between: a token's decisions are those of freshly parsed policies in an
-   empty cache.  No hypothesis on the spelling of access strings. *)
+   empty cache.  No hypothesis on the policies at all (they need not even parse). *)
 Theorem C08_pure : forall W c es s m,
   versioned W -> reach W c -> Forall W es ->
   resolve_decide c es s m = resolve_decide caches_empty es s m.
@@ -150,23 +155,22 @@ Proof. exact compile_cache_independent. Qed.
 Theorem C08_semantics_through_caches : forall W c es s m,
   versioned W -> reach W c -> Forall W es ->
   forallb (fun e => e_ok e && validate (e_pol e)) es = true ->
-  forallb canonical (map e_pol es) = true ->
   resolve_decide c es s m = Some (spec_chain (map e_pol es) s m).
 Proof. exact semantics_through_caches. Qed.
 
 (* ------------------------------------------------------------------ non-vacuity *)
 
-(* a lowercase policy set with overlapping names, duplicates across policies, every level *)
+(* a policy set with overlapping names, duplicates across policies, every level, mixed spellings *)
 Definition ex_ps : list policy :=
   [Policy (PCanon LRead) PEmpty (PCanon LWrite) PEmpty PEmpty
      [Rule KKey true "" (PCanon LRead) PEmpty; Rule KKey false "ab" (PCanon LWrite) PEmpty;
       Rule KService true "a" (PCanon LWrite) (PCanon LDeny); Rule KNode false "n" (PCanon LRead) PEmpty];
    Policy (PCanon LWrite) PEmpty PEmpty (PCanon LDeny) PEmpty
      [Rule KKey true "a" (PCanon LList) PEmpty; Rule KKey false "ab" (PCanon LDeny) PEmpty;
-      Rule KService true "a" (PCanon LRead) PEmpty; Rule KService false "ab" (PCanon LDeny) PEmpty]].
+      Rule KService true "a" (POdd LRead) PEmpty; Rule KService false "ab" (POdd LDeny) PEmpty]].
 
-Example C08_canonical_example :
-  forallb canonical ex_ps = true /\ forallb validate ex_ps = true
+Example C08_levelled_example :
+  forallb levelled ex_ps = true /\ forallb validate ex_ps = true
   /\ spec_chain ex_ps deny_all (MKeyWrite "ab") = Deny          (* deny beats write on the same name *)
   /\ spec_chain ex_ps deny_all (MKeyList "abc") = Allow         (* longest prefix "a" (list) beats "" (read) *)
   /\ spec_chain ex_ps deny_all (MKeyWrite "x") = Deny           (* "" read does not grant write *)
@@ -208,21 +212,21 @@ Example C08_pure_needs_versioning :
   /\ resolve_decide caches_empty [e'] deny_all (MKeyWrite "a") = Some Allow.
 Proof. vm_compute. split; reflexivity. Qed.
 
-Print Assumptions C08_semantics_partial.
-Print Assumptions C08_semantics_refuted.
-Print Assumptions C08_semantics_scalar_refuted.
+Print Assumptions C08_semantics.
+Print Assumptions C08_valid_is_levelled.
+Print Assumptions C08_mixed_case_example.
 Print Assumptions C08_strongest.
 Print Assumptions C08_longest_prefix.
 Print Assumptions C08_subtree.
 Print Assumptions C08_any.
 Print Assumptions C08_all.
 Print Assumptions C08_covers.
-Print Assumptions C08_order_independent_partial.
-Print Assumptions C08_order_independent_refuted.
+Print Assumptions C08_order_independent.
+Print Assumptions C08_order_mixed_case_example.
 Print Assumptions C08_map_order_independent.
 Print Assumptions C08_pure.
 Print Assumptions C08_pure_authorizer.
 Print Assumptions C08_semantics_through_caches.
-Print Assumptions C08_canonical_example.
+Print Assumptions C08_levelled_example.
 Print Assumptions C08_pure_example.
 Print Assumptions C08_pure_needs_versioning.
